@@ -24,8 +24,9 @@
    Abstracted: unicode beyond ASCII white space / digits; "\r" newline translation;
    exponent / inf / nan / underscore float literals ([parse_fixed] answers None for them);
    IEEE decoding of the 4/8-byte reals of a TRR file (kept as byte groups in big-endian
-   order); LAMMPS `str.replace` is modelled on tokens (valid when no requested variable is
-   a proper substring of another token or of a value -- the harness generates such input). *)
+   order); LAMMPS: [lmp_write_for_run] is the whole-word substitution the property asks for,
+   [lmp_impl_write_for_run] the code as written (`str.replace` inside every word of a line
+   one of whose words is the variable); they agree on [lmp_line_clean] lines (CodecP). *)
 From Coq Require Import ZArith QArith List Bool Lia.
 Import ListNotations.
 From Inf Require Import gen.ParamsC19.
@@ -453,6 +454,71 @@ Definition lmp_found (k : str) (ls : list (list piece)) : bool :=
 Definition lmp_write_for_run (s : list (str * str)) (ls : list (list piece))
   : list (list piece) * list str :=
   (map (lmp_subst_line s) ls, map fst (filter (fun kv => negb (lmp_found (fst kv) ls)) s)).
+
+(* ---- lammps.write_for_run as it is written.  The code does not substitute tokens: per line
+       spl = line.split()
+       for var in input_settings: if var in spl: line = line.replace(var, str(value))
+   i.e. a variable that is a WORD of the (original) line is replaced wherever it str_occurs as a
+   SUBSTRING of the running text of that line, in dictionary order.  A word of a line is
+   non-empty and free of white space, so an occurrence never spans a white-space piece:
+   str.replace on the line is str.replace inside every token piece. *)
+Fixpoint str_starts (k t : str) : bool :=
+  match k, t with
+  | [], _ => true
+  | x :: k', y :: t' => (x =? y) && str_starts k' t'
+  | _ :: _, [] => false
+  end.
+(* str.replace(k, v) for a non-empty k: left to right, non-overlapping; [skip] = characters
+   of the current match still to be dropped *)
+Fixpoint str_replace (k v : str) (skip : nat) (t : str) : str :=
+  match t with
+  | [] => []
+  | c :: t' =>
+    match skip with
+    | S n => str_replace k v n t'
+    | O => if str_starts k t then v ++ str_replace k v (length k - 1) t' else c :: str_replace k v O t'
+    end
+  end.
+(* `k in t` on strings *)
+Fixpoint str_occurs (k t : str) : bool :=
+  match t with
+  | [] => is_nil k
+  | _ :: t' => str_starts k t || str_occurs k t'
+  end.
+Definition repl_piece (k v : str) (p : piece) : piece :=
+  if fst p then (true, str_replace k v O (snd p)) else p.
+(* one iteration of the inner loop; [T] = spl, the words of the line as read *)
+Definition lmp_impl_step (T : list str) (l : list piece) (kv : str * str) : list piece :=
+  if mem_str (fst kv) T then map (repl_piece (fst kv) (snd kv)) l else l.
+Definition lmp_impl_line (s : list (str * str)) (l : list piece) : list piece :=
+  fold_left (lmp_impl_step (line_tokens l)) s l.
+Definition lmp_impl_write_for_run (s : list (str * str)) (ls : list (list piece))
+  : list (list piece) * list str :=
+  (map (lmp_impl_line s) ls, map fst (filter (fun kv => negb (lmp_found (fst kv) ls)) s)).
+
+(* the lines on which the code IS the whole-word substitution: when a variable that is a
+   word of the line is applied, it str_occurs in no other word still standing and in no value
+   written by an earlier variable of this line *)
+Definition is_some {A} (o : option A) : bool := match o with Some _ => true | None => false end.
+Fixpoint lmp_clean_from (T : list str) (done s : list (str * str)) : bool :=
+  match s with
+  | [] => true
+  | kv :: s' =>
+    (if mem_str (fst kv) T then
+       negb (is_nil (fst kv))
+       && forallb (fun t => str_eqb t (fst kv) || is_some (lookup t done) || negb (str_occurs (fst kv) t)) T
+       && forallb (fun d => negb (mem_str (fst d) T) || negb (str_occurs (fst kv) (snd d))) done
+     else true)
+    && lmp_clean_from T (done ++ [kv]) s'
+  end.
+Definition lmp_line_clean (s : list (str * str)) (l : list piece) : bool :=
+  lmp_clean_from (line_tokens l) [] s.
+
+(* the variant `if var in line` (substring test instead of the word test) *)
+Definition lmp_substr_step (l : list piece) (kv : str * str) : list piece :=
+  if existsb (fun p => fst p && str_occurs (fst kv) (snd p)) l then map (repl_piece (fst kv) (snd kv)) l else l.
+Definition lmp_substr_line (s : list (str * str)) (l : list piece) : list piece :=
+  fold_left lmp_substr_step s l.
 
 (* ------------------------------------------------------------------ D. records, frames *)
 
